@@ -318,6 +318,11 @@ def handler : Handler := fun op j =>
       | _, true => 1.0 / N.toFloat
     let basis (q : Nat) : V Cx := fun p => if p = q then 1 else 0
     some (ok (jCMat (fun p q => cscale s * dftNd dims ws (basis q) p) N N))
+  | "normaxes" => do
+    let nd ← fNat? j "nd"
+    match normAxes nd (fInts? j "axes") with
+    | none => some (err "value")
+    | some l => some (ok (jNs l))
   | "dftinit" => do
     let shape ← fNats? j "shape"
     let axes := fInts? j "axes"
